@@ -77,6 +77,21 @@ CLAIMS["C18"] = (REFINE + "Props/C18: a panicking chain/capture/handler makes th
                  "order; threads: at the join of the panicked thread, caller not blocked), and the trace then contains only events of steps up to "
                  "the panicking one. " + K2NOTE, NOTE_COMMON + ASYNC_NOTE + "Behaviour of tokio on a panicking task is assumed (template __spawn_tokio).",
                  "Lean 4 refinement + panic propagation theorems; K2 panic injection with watchdog", "§7 C18")
+CLAIMS["C01"] = ("Props/C01 (Lean 4): each of the 23 documented token sequences selects its combinator in the ordered determiner table, for "
+                 "every continuation (∀ rest; the two prefix cases `=>`/`=>[]`, `?|>`/`?|>@` with their side condition); the extracted operand "
+                 "arities and emission templates equal the README's (`.chain` for `>@>`, `.find` for `?@` …); `->` and `??` have their "
+                 "documented forms; every other operator is postfix; the initial value is one token tree; a wrapper-free chain is the "
+                 "left fold of single applications (∀ length, ∀ operator mix). Tables are regenerated from /repo on every run. "
+                 "Tie: K1 + 17k determiner probes against the real check_input + K2-chains (macro vs documented plain chain, compiled).",
+                 NOTE_COMMON + "'A well-typed chain compiles' and the run-time meaning of the std/futures methods are outside Lean: K2-chains "
+                 "compiles and runs every generated chain (sync macros); async chains are covered by K1 tokens only.",
+                 "Lean 4 table theorems over translated tables + fold theorem; K1/K2-chains differential", "§7 C01")
+CLAIMS["C02"] = ("Props/C02 (Lean 4): the wrapper set and wrapper constructors equal the documented ten (regenerated tables); "
+                 "step_expr_nested: for every action list (any depth, empty inner chains, captures) the generator's stack machine computes "
+                 "exactly the recursive-descent reading `X >>> inner <<< rest ↦ .x(|__v| __v inner) rest`, implicit closing at step end, "
+                 "continuation on the outer value after `<<<`; it fails only on a level-0 `<<<`. Tie: K1 wrapper family + K2-chains with "
+                 "nested wrappers against hand-nested closures.",
+                 NOTE_COMMON, "Lean 4 proof (stack machine = recursive descent) + table theorems; K1/K2-chains differential", "§7 C02")
 CLAIMS.pop("C15")   # not claimed before its Props module exists
 PLANNED = {}
 
